@@ -184,7 +184,15 @@ def rule_raw_iter(ctx, repo):
                         problems.append('the cursor does not skip the %d length byte(s)' % w)
                 if data != 'data' or 'data = bytes(self[i:i + datasize])' not in texts:
                     problems.append('pushed data is not self[i:i+datasize]')
-                if p.assume.get('len(data) < datasize') is not False:
+                trunc = p.assume.get('len(data) < datasize') is False
+                if not trunc and 'data = bytes(self[i:i + datasize])' in texts:
+                    # any test that, for a slice (which is never longer than asked for), says the same thing
+                    from ..rules import equiv as _equiv2
+                    for gk, gval in p.assume.items():
+                        if gval is False and 'datasize' in gk and 'len(data)' in gk:
+                            if _equiv2('(%s) and len(data) <= datasize' % gk, 'len(data) < datasize') is True:
+                                trunc = True
+                if not trunc:
                     problems.append('no truncation guard `len(data) < datasize` before the push is yielded')
                 if 'i += datasize' not in texts:
                     problems.append('the cursor does not skip the pushed data')
@@ -195,7 +203,7 @@ def rule_raw_iter(ctx, repo):
                 nm = norm(exc.func) if isinstance(exc, ast.Call) else norm(exc)
                 if nm not in ('CScriptInvalidError', 'CScriptTruncatedPushDataError'):
                     problems.append('raises %s' % nm)
-                if p.assume.get('len(data) < datasize') is True and nm != 'CScriptTruncatedPushDataError':
+                if (p.assume.get('len(data) < datasize') is True or p.assume.get('len(data) != datasize') is True) and nm != 'CScriptTruncatedPushDataError':
                     problems.append('a truncated push raises %s, not the truncated-push error' % nm)
             elif p.end == 'raise':
                 problems.append('reaches `%s`' % norm(p.endnode)[:40])
